@@ -206,8 +206,8 @@ def _property_value(en, name):
                 and d.value.id == 'functools')
     if m is not None and len(m.node.decorator_list) == 1 and is_prop(
             m.node.decorator_list[0]):
-        body = [b for b in m.node.body if not (
-            isinstance(b, ast.Expr) and isinstance(b.value, ast.Constant))]
+        from .util import inert_stmt
+        body = [b for b in m.node.body if not inert_stmt(b)]
         if len(body) == 1 and isinstance(body[0], ast.Return) and \
                 body[0].value is not None and not has_call(body[0].value):
             v = body[0].value
@@ -279,9 +279,8 @@ def _fold_lookup(node):
         except Exception:
             m = init = None
         if m is not None and (init is None or len(init.params) <= 1):
-            body = [b for b in m.node.body if not (
-                isinstance(b, ast.Expr) and isinstance(b.value,
-                                                       ast.Constant))]
+            from .util import inert_stmt
+            body = [b for b in m.node.body if not inert_stmt(b)]
             if len(body) == 1 and isinstance(body[0], ast.Return) and \
                     isinstance(body[0].value, ast.Constant):
                 return ast.copy_location(ast.Constant(
